@@ -1360,6 +1360,9 @@ _ret_:
         vmovdqa64       [keys + 4*16], zmm0
         vmovdqa64       [keys + 8*16], ymm0
         vmovdqa64       [keys + 10*16], xmm0
+        ; Clear tweak values (16*8 bytes), the first is the encrypted initial tweak
+        vmovdqu64       [TW], zmm0
+        vmovdqu64       [TW + 4*16], zmm0
 %else
         vzeroupper
 %endif
